@@ -2,6 +2,8 @@
 # recheck_parallel.sh [N] - recheck_seeded.sh over all packaged changes in N shards (own target dirs)
 N=${1:-4}
 cd /verif
+rm -rf /tmp/xr-harness; mkdir -p /tmp/xr-harness; cp -r harness/src harness/Cargo.toml harness/Cargo.lock harness/build.rs harness/.cargo /tmp/xr-harness/
+export XS_HARNESS=/tmp/xr-harness
 ids=($(ls seeded | grep -E '^C[0-9]+-'))
 for k in $(seq 0 $((N-1))); do
   shard=()
@@ -11,4 +13,4 @@ done
 wait
 cat /tmp/recheck_shard_*.log | sort > /tmp/recheck_all.log
 grep -c " ok:" /tmp/recheck_all.log; grep -v " ok:" /tmp/recheck_all.log
-rm -rf /tmp/xr-target-*
+rm -rf /tmp/xr-target-* /tmp/xr-harness
